@@ -21,6 +21,11 @@ import H4.Gen.Gr
       (PIXEL → requested interlace), re-using `H4.Interlace.convert` and `H4.Conv.tr`.
     * **Palette**: only the 256×3 `uint8` pixel-interlaced shape is accepted by `GRwritelut`.
 
+    * **Compression** (`GRsetcompress`) has no logical effect: a compressed element is always accessed through the
+      `HBconvert` buffer – created by `GRsetcompress`, or, for a compressed image loaded from the file, because
+      `GRIget_image_list` asks `GRIisspecial_type(...) == SPECIAL_COMP` – so every partial write is a read-modify-write of
+      the whole element, flushed from offset 0 by `HBPcloseAID`; the model's element is that buffer.
+
     `Variant` selects the source revision that is modelled.  `Variant.current` is the code as it is now
     (with `fix:` commits 9076f25 – selections outside the image are refused –, 80405e4 – a strided first
     write fills exactly the unwritten lines –, 50122da – images loaded from a file keep `fill_img` – and
@@ -214,7 +219,9 @@ def firstTrace {α} (v : Variant) (W H : Nat) (r : Req) (vals : List α) : List 
 
 /-- what the file holds for one image -/
 structure Store (α : Type) where
-  /-- the raster element; `none` = no image data yet (`Hlength(img_tag, img_ref) <= 0`, `new_image`) -/
+  /-- the raster element; `none` = no image data yet: `new_image` / `!image_data`, i.e. no tag/ref, or nothing
+      written in this session (`data_modified`) and `Hlength(img_tag, img_ref) <= 0`. The `data_modified` test makes the
+      data of a compressed image count while they still sit in the `HBconvert` buffer, where `Hlength` does not see them. -/
   elem : Option (List α) := none
   /-- `ri_ptr->fill_img`: TRUE from `GRcreate`; for an image loaded from the file by `GRstart` TRUE since
       50122da, FALSE before -/
